@@ -8,7 +8,7 @@ use crate::model::Model;
 use crate::types::*;
 use std::collections::HashMap;
 
-const FORMULAS: [&str; 4] = ["=SUM(A1,2.5)+IF(A1>1,10,20)", "=AND(TRUE,A1=1.5)", "=A1*2&\"x\"", "=IFERROR(A1/0,MAX(A1,3))"];
+const FORMULAS: [&str; 5] = ["=SUM(A1,2.5)+IF(A1>1,10,20)", "=AND(TRUE,A1=1.5)", "=A1*2&\"x\"", "=IFERROR(A1/0,MAX(A1,3))", "=IFERROR(#VALUE!,3)+IF(ISERROR(#N/A),1,2)"];
 const LANGS: [&str; 4] = ["de", "es", "fr", "it"];
 
 fn model_with_formulas() -> Option<Model<'static>> {
@@ -25,13 +25,13 @@ fn model_with_formulas() -> Option<Model<'static>> {
     model.evaluate();
     Some(model)
 }
-fn values(m: &Model) -> [Result<CellValue, String>; 4] {
-    [m.get_cell_value_by_index(0, 2, 1), m.get_cell_value_by_index(0, 2, 2), m.get_cell_value_by_index(0, 2, 3), m.get_cell_value_by_index(0, 2, 4)]
+fn values(m: &Model) -> [Result<CellValue, String>; 5] {
+    [m.get_cell_value_by_index(0, 2, 1), m.get_cell_value_by_index(0, 2, 2), m.get_cell_value_by_index(0, 2, 3), m.get_cell_value_by_index(0, 2, 4), m.get_cell_value_by_index(0, 2, 5)]
 }
 fn stored(m: &Model) -> Vec<String> { m.workbook.worksheets[0].shared_formulas.clone() }
-fn shown(m: &Model) -> [String; 4] {
+fn shown(m: &Model) -> [String; 5] {
     let f = |c: i32| m.get_cell_formula(0, 2, c).unwrap_or(None).unwrap_or_default();
-    [f(1), f(2), f(3), f(4)]
+    [f(1), f(2), f(3), f(4), f(5)]
 }
 
 /// switch the language (solver chooses which), or the locale to de, or both
@@ -40,7 +40,7 @@ pub fn h_c10_language_and_locale_switch() {
     check("C10.entered", entered.is_some());
     let mut model = match entered { Some(m) => m, None => return };
     let (vals0, stored0, shown0) = (values(&model), stored(&model), shown(&model));
-    check("C10.values_before", (vals0[0] == Ok(CellValue::Number(14.0))) & (vals0[1] == Ok(CellValue::Boolean(true))) & (vals0[2] == Ok(CellValue::String("3x".to_string()))) & (vals0[3] == Ok(CellValue::Number(3.0))));
+    check("C10.values_before", (vals0[0] == Ok(CellValue::Number(14.0))) & (vals0[1] == Ok(CellValue::Boolean(true))) & (vals0[2] == Ok(CellValue::String("3x".to_string()))) & (vals0[3] == Ok(CellValue::Number(3.0))) & (vals0[4] == Ok(CellValue::Number(4.0))));
     let (switch_language, switch_locale) = (any_bool(), any_bool());
     assume(switch_language | switch_locale);
     let l = any_usize_to(LANGS.len() - 1);
@@ -53,7 +53,7 @@ pub fn h_c10_language_and_locale_switch() {
     let now = shown(&model);
     let mut ok = true;
     let mut i = 0;
-    while i < 4 { ok &= model.set_user_input(0, 2, i as i32 + 1, now[i].clone()).is_ok(); i += 1; }
+    while i < 5 { ok &= model.set_user_input(0, 2, i as i32 + 1, now[i].clone()).is_ok(); i += 1; }
     model.evaluate();
     check("C10.reenter.accepted", ok);
     check("C10.reenter.stored_formulas_unchanged", stored(&model) == stored0);
